@@ -339,6 +339,82 @@ theorem flush_after_faults_delivers_everything (n : Nat) (ops : List UFOp) :
 example : ([UFOp.add .nil true, UFOp.add .nil false, UFOp.flush true].foldl stepF (UStreaming.new 1, [])).1.written.flatten.length = 1
     ∧ ([UFOp.add .nil true, UFOp.add .nil false, UFOp.flush true].foldl stepF (UStreaming.new 1, [])).2.length = 1 := by decide
 
+/-! ### the schema-aware variant under write faults -/
+
+theorem dflushW_true (c : UStreamingDynamic) : c.flushW true = c.flush := by
+  unfold UStreamingDynamic.flushW UStreamingDynamic.flush; rw [flushW_true]
+
+theorem daddW_true (c : UStreamingDynamic) (d : BDoc) : c.addW d true true = c.add d := by
+  simp only [UStreamingDynamic.addW, UStreamingDynamic.addWWith, UStreamingDynamic.needFlush, UStreamingDynamic.add,
+    dflushW_true, addW_true]
+
+theorem dflushW_conserves (c : UStreamingDynamic) (wok : Bool) (hm : c.s.inner.metadata = none) :
+    (c.flushW wok).1.s.written.flatten ++ (c.flushW wok).1.s.inner.samples = c.s.written.flatten ++ c.s.inner.samples ∧
+    (c.flushW wok).1.s.inner.metadata = none := by
+  obtain ⟨h1, h2⟩ := flushW_conserves c.s wok hm
+  unfold UStreamingDynamic.flushW
+  dsimp only
+  split <;> exact ⟨h1, h2⟩
+
+/-- one `Add` of the streaming layer with a writer that may refuse keeps written ++ pending = log -/
+theorem addW_inv (c : UStreaming) (acc : List BDoc) (d : BDoc) (wok : Bool) (hm : c.inner.metadata = none)
+    (h : c.written.flatten ++ c.inner.samples = acc) :
+    (c.addW d wok).1.inner.metadata = none ∧
+    (c.addW d wok).1.written.flatten ++ (c.addW d wok).1.inner.samples = (if (c.addW d wok).2 then acc ++ [d] else acc) :=
+  stepF_inv c acc (.add d wok) hm h
+
+def stepD (acc : UStreamingDynamic × List BDoc) : UDOp → UStreamingDynamic × List BDoc
+  | .add d w1 w2 => let r := acc.1.addW d w1 w2; (r.1, if r.2 then acc.2 ++ [d] else acc.2)
+  | .flush wok => ((acc.1.flushW wok).1, acc.2)
+
+theorem stepD_inv (c : UStreamingDynamic) (acc : List BDoc) (op : UDOp) (hm : c.s.inner.metadata = none)
+    (h : c.s.written.flatten ++ c.s.inner.samples = acc) :
+    (stepD (c, acc) op).1.s.inner.metadata = none ∧
+    (stepD (c, acc) op).1.s.written.flatten ++ (stepD (c, acc) op).1.s.inner.samples = (stepD (c, acc) op).2 := by
+  cases op with
+  | flush wok =>
+    obtain ⟨h1, h2⟩ := dflushW_conserves c wok hm
+    exact ⟨h2, by simp only [stepD]; rw [h1]; exact h⟩
+  | add d w1 w2 =>
+    simp only [stepD]
+    unfold UStreamingDynamic.addW UStreamingDynamic.addWWith
+    dsimp only
+    generalize c.needFlush d = nf
+    cases nf with
+    | true =>
+      simp only [if_true]
+      obtain ⟨h1, h2⟩ := dflushW_conserves c w1 hm
+      by_cases hok : (c.flushW w1).2 = true
+      · simp only [hok, Bool.not_true, Bool.false_eq_true, if_false]
+        exact addW_inv (c.flushW w1).1.s acc d w2 h2 (by rw [h1]; exact h)
+      · have hok' : (c.flushW w1).2 = false := by simpa using hok
+        simp only [hok', Bool.not_false, if_true]
+        exact ⟨h2, by rw [h1]; simpa using h⟩
+    | false =>
+      simp only [Bool.false_eq_true, if_false, Bool.not_true]
+      exact addW_inv c.s acc d w2 hm h
+
+/-- **the schema-aware uncompressed collector under write faults**: schema changes, full batches and explicit flushes with
+any pattern of refused writes lose and duplicate nothing -/
+theorem dynamic_conservation_under_write_faults (n : Nat) (ops : List UDOp) :
+    let r := ops.foldl stepD (UStreamingDynamic.new n, [])
+    r.1.s.written.flatten ++ r.1.s.inner.samples = r.2 := by
+  have : ∀ (ops : List UDOp) (c : UStreamingDynamic) (acc : List BDoc), c.s.inner.metadata = none →
+      c.s.written.flatten ++ c.s.inner.samples = acc →
+      (ops.foldl stepD (c, acc)).1.s.written.flatten ++ (ops.foldl stepD (c, acc)).1.s.inner.samples =
+        (ops.foldl stepD (c, acc)).2 := by
+    intro ops
+    induction ops with
+    | nil => intro c acc _ h; exact h
+    | cons op ops ih =>
+      intro c acc hm h
+      obtain ⟨h1, h2⟩ := stepD_inv c acc op hm h
+      simp only [List.foldl_cons]
+      have e : stepD (c, acc) op = ((stepD (c, acc) op).1, (stepD (c, acc) op).2) := rfl
+      rw [e]
+      exact ih _ _ h1 h2
+  exact this ops (UStreamingDynamic.new n) [] rfl (by simp [UStreamingDynamic.new, UStreaming.new])
+
 /-! non-vacuity -/
 example : Inv ({ batchSize := 2 } : Uncompressed) := ⟨by simp, by simp, by simp⟩
 
